@@ -323,6 +323,7 @@ func valStr(v Val) string {
 var arNumeric = map[string][2]int{"Timestamp": {16, 28}, "OwnerID": {28, 34}, "GroupID": {34, 40}, "Size": {48, 58}}
 
 func checkC13(p *Prog, rp *Report) {
+	defer stateRule(p, rp, "C13-STATE", p.Func("deb", "LoadAr"), p.Method("deb", "Ar", "Next"))
 	rp.Explanation = "The ar reader is interpreted abstractly on a symbolic member header (bytes = opaque tokens hdr[i], parsed numbers = symbols, offsets = linear terms): C13-COLS each entry field derives from exactly the ar(5) columns (name 0-16, mtime 16-28, uid 28-34, gid 34-40, mode 40-48, size 48-58) and numeric columns are parsed base 10 / 64 bit, blank = 0; C13-NAME blanks trimmed then one trailing '/' removed; C13-OFFSET the member reader is NewSectionReader(archive, off+60, size) and the next offset is off+60+size+size%2; C13-FRESH one new section reader per Next and the iterator keeps no reference to it; C13-MAGIC the global header is the 8 bytes \"!<arch>\\n\" read at offset 0 and iteration starts at 8; C13-EOF/C13-SHORT a failed or short header read ends the iteration with an error (io.EOF at the end)."
 	rp.NotDecided = "that the bytes a member's reader delivers equal the member's bytes (contract of io.SectionReader / the caller's io.ReaderAt). Archives cut short inside a member are not well formed; C15-TRUNC covers them."
 	rp.Trusted = []string{"go/types, go/ssa", "ar(5) header layout", "contracts of io.ReaderAt, io.NewSectionReader, strings.TrimSpace/TrimSuffix, strconv.ParseInt"}
@@ -571,7 +572,9 @@ func arRules(p *Prog, rp *Report, c13 bool) {
 	// cross-check on concrete archives (always run; the fallback when the symbolic model does not apply)
 	fam := rp.Rule(prefix+"-FAMILY", "LoadAr / Next agree with an ar(5) reference reader on a family of concrete archives", 1)
 	if b := arConcrete(p); b.undecided != "" {
-		fam.ok("deb.Ar.Next", pos, "not evaluated (the symbolic rules above decide; the concrete interpretation stopped at: "+clip(b.undecided, 160)+")")
+		// the family enters through LoadAr as a caller does (the symbolic rules build the iterator directly), so it
+		// is the only place where a layer between the caller's ReaderAt and the iterator is seen: it has to be decided
+		fam.undecided("deb.Ar.Next", pos, "the concrete interpretation stopped at: "+clip(b.undecided, 200))
 	} else {
 		var all []string
 		for _, k := range []string{"COLS", "OFFSET", "HDRMAGIC", "MAGIC", "SHORT", "LAST"} {
